@@ -3,6 +3,7 @@ package engine
 // Symbolic value model layered on the concrete interpreter values.
 
 import (
+	"strings"
 	"fmt"
 	"go/token"
 	"go/types"
@@ -689,6 +690,18 @@ func (i *interpreter) strBinop(op token.Token, x, y value) value {
 // eqv returns x == y for type t as bool or symBool.
 func (i *interpreter) eqv(t types.Type, x, y value) value {
 	C := i.m.C
+	// an opaque token cell equals only an equal token, never a raw byte
+	xb, xIsBox := x.(boxCell)
+	yb, yIsBox := y.(boxCell)
+	if xIsBox || yIsBox {
+		if xIsBox && yIsBox {
+			return i.boolv(i.boxEq(xb, yb))
+		}
+		if strings.HasPrefix(xb.kind, "hash:") || strings.HasPrefix(yb.kind, "hash:") {
+			unsup("digest of a symbolic input compared with concrete bytes")
+		}
+		return false
+	}
 	switch x := x.(type) {
 	case symInt, symBool:
 		return i.symBinop(token.EQL, t, x, y)
@@ -729,7 +742,7 @@ func (i *interpreter) eqv(t types.Type, x, y value) value {
 			return true
 		}
 		return i.eqv(x.t, x.v, yi.v)
-	case bigv, boxCell:
+	case bigv:
 		unsup("comparison of opaque value %T", x)
 	}
 	if isSym(y) {
